@@ -101,7 +101,7 @@ def run(ck: common.Check):
         "harness/c07_monitor.py fingerprints (id-based) and harness/progen.py / sched.py generators",
     ]
     ck.assumptions = [
-        "ListProg abstracts Python: values are references or opaque; every call into code outside the three translated files "
+        "ListProg abstracts Python: values are references or opaque; every call into code outside the four translated files "
         "(new_eff checks, pattern_match, range_analysis, builtins, C extensions) is an unknown call that does not mutate its "
         "arguments and may return anything -- the runtime monitor is the check of this assumption",
         "parameters, attribute reads, subscript reads, loop variables and all call results are classified shared; new objects "
@@ -120,13 +120,33 @@ def run(ck: common.Check):
     else:
         ck.broken_obligation("correspondence:pyheap-not-run", "Model.vo missing")
 
+    # ------------------------------------------------------------------ 2b. regression cases (repaired defects)
+    rc, out = common.sh([common.PY, str(common.VERIF / "harness" / "c07_regress.py")], timeout=300,
+                        cwd=str(common.scratch_dir("c07_regress")), env=common.exo_env())
+    nreg = 0
+    for line in out.splitlines():
+        if not line.startswith("{"):
+            continue
+        r = json.loads(line)
+        nreg += 1
+        ck.case("regression", r["case"], True, r, tag="ok" if r["ok"] else "FAILED")
+        if r["ok"]:
+            ck.corr_agree("regression")
+        else:
+            ck.stream("regression")["diverge"] += 1
+            ck.violation(r["key"], {"script": "harness/c07_regress.py", "case": r["case"], "detail": r["detail"]},
+                         "regression case fails: " + r["case"])
+            ck.log("REGRESSION FAILS: %s" % r["case"])
+    if rc != 0 or nreg < 3:
+        ck.broken_obligation("regression-driver", "rc=%s, %d cases: %s" % (rc, nreg, out[-400:]))
+
     # ------------------------------------------------------------------ 3. runtime monitor (validation + search)
     nwork = max(4, min(12, (os.cpu_count() or 8) - 4))
     n_sessions = ck.n(22, 330)
     n_sweeps = ck.n(3, 36)
     # the machine is shared: keep the whole check inside its budget whatever the build has cost so far
     spent = time.time() - ck.t0
-    cap = int(max(40, min(100, 160 - spent))) if not ck.thorough else int(max(300, min(900, 1080 - spent)))
+    cap = int(max(35, min(80, 150 - spent))) if not ck.thorough else int(max(300, min(900, 1080 - spent)))
     sdir = common.scratch_dir("c07_run")
     procs = []
     t0 = time.time()
